@@ -189,3 +189,47 @@ func Harness_C14_cleanup_waits_before_teardown() {
 	}
 	verifReach("end")
 }
+
+// Account deletion stops the user's live topics and then signals completion to the waiting {del user} handler.
+// With no live topic there is nothing to wait for - but the completion signal must still be sent, or the
+// handler (and with it the session) waits for ever. With live topics each is marked deleted, dropped from the
+// hub and told to exit with a done channel before the function waits for them.
+func Harness_C14_stop_topics_for_user_signals_completion() {
+	verifNewStore()
+	hub := verifInitGlobals()
+	uid := types.Uid(5)
+	k := verifChoose("liveTopics", 3)
+	var live []*Topic
+	if k >= 1 {
+		me := verifMeTopic(uid)
+		me.exit = make(chan *shutDown, 1)
+		hub.topics.Store(me.name, me)
+		live = append(live, me)
+	}
+	if k >= 2 {
+		other := types.Uid(6)
+		p := &Topic{name: uid.P2PName(other), cat: types.TopicCatP2P, exit: make(chan *shutDown, 1),
+			perUser: map[types.Uid]perUserData{uid: {}, other: {}}, sessions: map[*Session]perSessionData{}}
+		hub.topics.Store(p.name, p)
+		live = append(live, p)
+	}
+	// somebody else's group stays
+	grp := &Topic{name: "grpAAAAAAAAAAB", cat: types.TopicCatGrp, owner: types.Uid(9), exit: make(chan *shutDown, 1),
+		perUser: map[types.Uid]perUserData{uid: {}, types.Uid(9): {}}, sessions: map[*Session]perSessionData{}}
+	hub.topics.Store(grp.name, grp)
+	alldone := make(chan bool, 1)
+	blocked := verifRunUntilBlocked(func() { hub.stopTopicsForUser(uid, StopDeleted, alldone) })
+	if k == 0 {
+		verifAssert(!blocked && len(alldone) == 1, "completion-signalled-when-nothing-is-live")
+	} else {
+		verifAssert(blocked && len(alldone) == 0, "waits-for-the-live-topics-to-confirm")
+	}
+	for _, t := range live {
+		_, still := hub.topics.Load(t.name)
+		verifAssert(!still && t.isInactive(), "users-topic-marked-deleted-and-dropped")
+		verifAssert(len(t.exit) == 1, "users-topic-told-to-exit")
+	}
+	_, still := hub.topics.Load(grp.name)
+	verifAssert(still && !grp.isInactive() && len(grp.exit) == 0, "somebody-elses-group-untouched")
+	verifReach("end")
+}
